@@ -325,6 +325,17 @@ func Signature(tier string) (Family, map[string]SigExpect) {
 		b.add("sig-grouped", ps, plainRet, map[string]string{"grouping": fmt.Sprint(split), "locations": "same-type-declarations", "gi": fmt.Sprint(gi)})
 		b.group = false
 	}
+	// (3c) a user type that merely looks like context.Context: named Context, in a package whose path ends in /context
+	{
+		id := fmt.Sprintf("g%04d", b.n)
+		b.n++
+		m := scen.Method{Name: "Op" + id, Verb: "POST", Route: scen.S("/op"), Params: []scen.Param{{Name: "ctx", Type: "context.Context"}, {Name: "target", Type: "tctx.Context", In: "Body"}}}
+		ctl := scen.Controller{Name: "C" + id, Pkg: id, Prefix: scen.S("/" + id), Tag: scen.S("T" + id), Methods: []scen.Method{m}}
+		u := scen.Unit{Controllers: []scen.Controller{ctl}, Decls: map[string]string{id + "/tenancy/context": "type Context struct {\n\tTenant string `json:\"tenant\"`\n}\n"},
+			Imports: map[string][]string{id: {"context", "tctx " + scen.ModulePath + "/" + id + "/tenancy/context"}}}
+		b.cases = append(b.cases, scen.Case{ID: id, Unit: u, Features: map[string]string{"family": "sig-lookalike-context", "in": "Body"}, Desc: map[string]any{"controller": ctl}})
+		b.exp[id] = SigExpect{OpID: "Op" + id, Params: []SigParam{{Name: "target", In: "body", Required: true, Kinds: []string{"$ref:Context"}}}, SuccessCode: "204", ErrKinds: []string{"$ref:Rfc7807Error"}}
+	}
 	// (4) return shapes x @Response x @ErrorResponse
 	rets := []struct {
 		name string
